@@ -471,22 +471,9 @@ func resolveSpill(v ssa.Value) ssa.Value {
 		}
 		al, ok := u.X.(*ssa.Alloc)
 		if fv, isFV := u.X.(*ssa.FreeVar); isFV {
-			// a variable captured from the enclosing function: the cell it is bound to
-			fn := fv.Parent()
-			if fn.Parent() != nil {
-				idx := -1
-				for k, q := range fn.FreeVars {
-					if q == fv {
-						idx = k
-					}
-				}
-				eachInstr(fn.Parent(), func(i ssa.Instruction) {
-					if mc, isMC := i.(*ssa.MakeClosure); isMC && mc.Fn == ssa.Value(fn) && idx >= 0 && idx < len(mc.Bindings) {
-						if a2, isAl := mc.Bindings[idx].(*ssa.Alloc); isAl {
-							al, ok = a2, true
-						}
-					}
-				})
+			// a variable captured from the enclosing function(s): the cell it is bound to
+			if a2 := cellOfFreeVar(fv, 0); a2 != nil {
+				al, ok = a2, true
 			}
 		}
 		if !ok || al.Referrers() == nil {
@@ -784,4 +771,31 @@ func asCallOfExtract(v ssa.Value, name string) *ssa.Call {
 		return nil
 	}
 	return c
+}
+
+// cellOfFreeVar: the allocation a captured variable is bound to, followed outwards through
+// enclosing closures that merely pass the capture on.
+func cellOfFreeVar(fv *ssa.FreeVar, depth int) *ssa.Alloc {
+	fn := fv.Parent()
+	if fn == nil || fn.Parent() == nil || depth > 4 {
+		return nil
+	}
+	idx := -1
+	for k, q := range fn.FreeVars {
+		if q == fv {
+			idx = k
+		}
+	}
+	var out *ssa.Alloc
+	eachInstr(fn.Parent(), func(i ssa.Instruction) {
+		if mc, isMC := i.(*ssa.MakeClosure); isMC && mc.Fn == ssa.Value(fn) && idx >= 0 && idx < len(mc.Bindings) {
+			switch b := mc.Bindings[idx].(type) {
+			case *ssa.Alloc:
+				out = b
+			case *ssa.FreeVar:
+				out = cellOfFreeVar(b, depth+1)
+			}
+		}
+	})
+	return out
 }
